@@ -160,9 +160,21 @@ def _params(d):
         return []
 
 
-def abstraction(assertions):
+_SHARED = [None]
+
+
+def shared_abs():
+    """One translation table per worker process: the obligations of a function share almost all of their path
+    conditions, so translating a term once is what makes this back end cheap.  (Side constraints only ever state
+    valid facts about the fresh symbols, so accumulating them across obligations is sound.)"""
+    if _SHARED[0] is None:
+        _SHARED[0] = Abs()
+    return _SHARED[0]
+
+
+def abstraction(assertions, a=None):
     """A z3 solver holding the string-free abstraction of the (ground part of the) assertions."""
-    a = Abs()
+    a = a or Abs()
     s = z3.Solver()
     for f in assertions:
         if z3.is_quantifier(f):
@@ -170,15 +182,28 @@ def abstraction(assertions):
         s.add(a.tr(f))
     s.add(*a.side)
     s.add(*a.distinct_lits())
+    cf = a.ufs.get(("concat", (str(STR), str(STR)), str(STR)))
+    if cf is not None:
+        # concatenation is associative and its length is the sum (instantiated by E-matching, modulo the equalities
+        # the solver derives: value[:4] + value[6:] with value[:4] == '--' + MM re-associates to the contract's term)
+        x, y, z = z3.Consts("x_abs y_abs z_abs", STR)
+        s.add(z3.ForAll([x, y, z], cf(cf(x, y), z) == cf(x, cf(y, z)), patterns=[cf(cf(x, y), z)]))
+        s.add(z3.ForAll([x, y], a.len_f(cf(x, y)) == a.len_f(x) + a.len_f(y), patterns=[cf(x, y)]))
+        empty = a.lits.get("")
+        if empty is not None:
+            s.add(z3.ForAll([x], cf(empty, x) == x, patterns=[cf(empty, x)]))
+            s.add(z3.ForAll([x], cf(x, empty) == x, patterns=[cf(x, empty)]))
     return s
 
 
 def check_unsat(assertions, rlimit=3_000_000, timeout_ms=4000) -> bool:
     """True iff the string-free abstraction of the (ground part of the) assertions is unsatisfiable."""
     try:
-        s = abstraction(assertions)
+        s = abstraction(assertions, shared_abs())
         s.set("rlimit", rlimit)
         s.set("timeout", timeout_ms)
+        s.set("auto_config", False)
+        s.set("smt.mbqi", False)  # the quantified axioms are for E-matching only
         return s.check() == z3.unsat
     except z3.Z3Exception:
         return False
